@@ -18,13 +18,19 @@ _CMP_OPS = {'>', '<', '='}
 _REDUCE_SCAN_OPS = {'+', '*', '|', '&'}
 
 
-def compile_expr(ast, klong):
+def compile_expr(ast, klong, check_operands=True):
     """Try to compile an AST node to a callable.
 
     Returns (compiled_fn, [var_syms]) or None.
+
+    With check_operands=False the result depends on the expression only (not
+    on what its variables are bound to right now); the caller must then fetch
+    the operands with compiled_args() at every call. The interpreter memoises
+    compiled code on shared AST nodes, where it outlives the values bound at
+    compile time, so it compiles this way.
     """
     var_refs = {}
-    ir = _ast_to_ir(ast, klong, var_refs)
+    ir = _ast_to_ir(ast, klong, var_refs, check_operands)
     if ir is None:
         return None
     if not var_refs:
@@ -34,7 +40,30 @@ def compile_expr(ast, klong):
     return klong._backend.compile_expr_ir(ir, var_syms)
 
 
-def _ast_to_ir(node, klong, var_refs):
+def _admissible(klong, val):
+    """Operand kinds for which the generated code agrees with the Klong verbs."""
+    tv = type(val)
+    return tv is int or tv is float or isinstance(val, klong._backend.np.ndarray)
+
+
+def compiled_args(klong, var_syms):
+    """Fetch the operands of a compiled expression, or raise.
+
+    Compiled code uses Python operators, which agree with the Klong verbs only
+    on plain numbers and backend arrays. For any other operand (string, symbol,
+    dictionary, function, undefined variable) this raises and the caller falls
+    back to the interpreter.
+    """
+    args = []
+    for s in var_syms:
+        val = klong._context[s]
+        if not _admissible(klong, val):
+            raise TypeError(s)
+        args.append(val)
+    return args
+
+
+def _ast_to_ir(node, klong, var_refs, check_operands=True):
     """Walk AST and emit IR tuples. Returns IR tree or None."""
     t = type(node)
 
@@ -44,20 +73,16 @@ def _ast_to_ir(node, klong, var_refs):
 
     # Symbols -> variable references
     if t is KGSym:
-        try:
-            val = klong._context[node]
-        except KeyError:
-            return None
-        tv = type(val)
-        if tv is int or tv is float:
-            if node not in var_refs:
-                var_refs[node] = f'_v{len(var_refs)}'
-            return ('var', var_refs[node])
-        if isinstance(val, klong._backend.np.ndarray):
-            if node not in var_refs:
-                var_refs[node] = f'_v{len(var_refs)}'
-            return ('var', var_refs[node])
-        return None
+        if check_operands:
+            try:
+                val = klong._context[node]
+            except KeyError:
+                return None
+            if not _admissible(klong, val):
+                return None
+        if node not in var_refs:
+            var_refs[node] = f'_v{len(var_refs)}'
+        return ('var', var_refs[node])
 
     # Operator expressions
     if isinstance(node, KGFn) and node.is_op():
@@ -70,8 +95,8 @@ def _ast_to_ir(node, klong, var_refs):
                 args = [args] if args is not None else None
             if args is None or len(args) != 2:
                 return None
-            left = _ast_to_ir(args[0], klong, var_refs)
-            right = _ast_to_ir(args[1], klong, var_refs)
+            left = _ast_to_ir(args[0], klong, var_refs, check_operands)
+            right = _ast_to_ir(args[1], klong, var_refs, check_operands)
             if left is None or right is None:
                 return None
             if op_char in _ARITH_OPS:
@@ -84,7 +109,7 @@ def _ast_to_ir(node, klong, var_refs):
             arg = node.args
             if type(arg) is list:
                 arg = arg[0]
-            child = _ast_to_ir(arg, klong, var_refs)
+            child = _ast_to_ir(arg, klong, var_refs, check_operands)
             if child is None:
                 return None
             return ('negate', child)
@@ -102,7 +127,7 @@ def _ast_to_ir(node, klong, var_refs):
                 adv_char = adverb.a
                 if op_char not in _REDUCE_SCAN_OPS:
                     return None
-                arg_ir = _ast_to_ir(arg, klong, var_refs)
+                arg_ir = _ast_to_ir(arg, klong, var_refs, check_operands)
                 if arg_ir is None:
                     return None
                 if adv_char == '/':
